@@ -10,8 +10,9 @@ Not decided: ordering of late connection-closed notifications.
 """
 import ast
 
+from ..cfg import known_falsy, known_truthy
 from ..model import self_attr, unparse, walk_body_shallow
-from .util import (deferred_origins, bootstrap_names, call_name, call_recv, calls_in, need, node_assign_value, norm, real_suspension, registrations, where)
+from .util import (expand, value_origins, at, deferred_origins, bootstrap_names, call_name, call_recv, calls_in, need, node_assign_value, norm, real_suspension, registrations, where)
 
 TECHNIQUE = "poison-first dominance, aggregate construction def-use, call-graph dominance of the closing test, " \
             "check-after-yield (G-YIELD)"
@@ -73,21 +74,54 @@ def run(ctx):
     r = ctx.rule("R2", "all broker clients are closed; the returned Deferred aggregates every close (and earlier aggregates)", 7, "A+C")
     sw = [n for n in cf.nodes if node_assign_value(n, "clients") is not None]
     call = [c for c in calls_in(close, cbc.name)]
-    ok = len(sw) == 1 and len(call) == 1 and isinstance(sw[0].stmt.targets[0], ast.Tuple)
+    fcl = ctx.facts(close)
+    ok = len(sw) == 1 and len(call) == 1
     if ok:
-        local = [unparse(t) for t, v in zip(sw[0].stmt.targets[0].elts, sw[0].stmt.value.elts) if norm(v) == "self.clients"]
-        ok = bool(local) and norm(call[0].args[0]) == "%s.values()" % local[0]
+        # the closer gets `<map>.values()` where <map> is what self.clients held before it was poisoned (tuple swap,
+        # or read into a local first)
+        a0 = call[0].args[0] if call[0].args else None
+        ok = isinstance(a0, ast.Call) and call_name(a0) == "values" and isinstance(a0.func, ast.Attribute)
+        if ok:
+            cn_ = cf.containing(call[0])[0]
+            st_ = sw[0].stmt
+            src = None
+            if isinstance(st_.targets[0], ast.Tuple) and isinstance(st_.value, ast.Tuple):
+                local = [unparse(t) for t, v in zip(st_.targets[0].elts, st_.value.elts) if norm(v) == "self.clients"]
+                src = local[0] if local else None
+                ok = src is not None and norm(a0.func.value) == src
+            else:
+                og = value_origins(cf, cn_.id, a0.func.value, params=close.params) or []
+                ok = bool(og) and all(norm(e) == "self.clients" and sw[0].id in cf.reach([n_]) and n_ not in cf.reach([sw[0].id]) for n_, e in og)
     r.check(ok, "%s#closes-all-clients" % close.qname, "close() does not hand every broker client to the closer", where(close, close.node),
             "a broker connection survives close()")
-    newv = [norm(v) for t, v in zip(sw[0].stmt.targets[0].elts, sw[0].stmt.value.elts) if self_attr(t) == "clients"] if ok else []
-    r.check(newv == ["None"], "%s#client-map-poisoned" % close.qname,
+    newv = []
+    if sw:
+        st_ = sw[0].stmt
+        if isinstance(st_.targets[0], ast.Tuple) and isinstance(st_.value, ast.Tuple):
+            newv = [norm(v) for t, v in zip(st_.targets[0].elts, st_.value.elts) if self_attr(t) == "clients"]
+        else:
+            newv = [norm(node_assign_value(sw[0], "clients"))]
+    r.check(newv == ["None"] and len(sw) == 1, "%s#client-map-poisoned" % close.qname,
             "close() replaces the client map by %s instead of None" % newv, where(close, close.node),
             "a reply to a request still in flight on a bootstrap connection arrives after close(): with a usable map _update_brokers no "
             "longer fails, the reply is merged and the caches are repopulated; the pending load fires True after close")
-    rets = [x for x in walk_body_shallow(close.body) if isinstance(x, ast.Return)]
-    r.check(len(rets) == 1 and norm(rets[0].value).startswith("self.close_dlist or ") and cf.dominates(
-        [cf.containing(call[0])[0].id], cf.node_of(rets[0]).id) if call else False, "%s#returns-aggregate" % close.qname,
-        "close() does not return the aggregate of the broker-client closes", where(close, close.node), "close Deferred fires before the connections are gone")
+    retn = [n for n in cf.nodes if n.kind == "stmt" and isinstance(n.stmt, ast.Return)]
+    okr = bool(retn) and bool(call)
+    for n in retn:
+        v = at(ctx, close, n.id, n.stmt.value) if n.stmt.value is not None else None
+        t = norm(v) if v is not None else ""
+        if t.startswith("self.close_dlist or ") and isinstance(v, ast.BoolOp) and len(v.values) == 2 and call_name(v.values[1]) == "succeed" if isinstance(
+                v, ast.BoolOp) and isinstance(v.values[1], ast.Call) else False:
+            pass
+        elif t == "self.close_dlist" and known_truthy(fcl[n.id], "self.close_dlist"):
+            pass
+        elif isinstance(v, ast.Call) and call_name(v) == "succeed" and known_falsy(fcl[n.id], "self.close_dlist"):
+            pass
+        else:
+            okr = False
+        okr = okr and cf.dominates([cf.containing(call[0])[0].id], n.id)
+    r.check(okr, "%s#returns-aggregate" % close.qname,
+            "close() does not return the aggregate of the broker-client closes", where(close, close.node), "close Deferred fires before the connections are gone")
     cc = ctx.cfg(cbc)
     fcc = ctx.facts(cbc)
     dl = []
@@ -219,7 +253,6 @@ def run(ctx):
 
     # ---- R6 broker client: nothing is (re)scheduled once close() was called (shared with C10.R5/R6)
     r = ctx.rule("R6", "a closed broker client arms no reconnect timer, starts no attempt and accepts no request", 3, "B")
-    from ..cfg import known_falsy
     conn = ctx.func("brokerclient:_KafkaBrokerClient._connect")
     for g in conn.nested.values():
         cg = ctx.cfg(g)
@@ -244,6 +277,13 @@ def run(ctx):
     r.check(any(prog.resolve_call(close, c) is ram for c in calls_in(close)), "%s#calls-reset-all" % close.qname, "close() keeps the metadata cache",
             where(close, close.node))
     cleared = {call_recv(c).split(".", 1)[1] for c in calls_in(ram, "clear") if (call_recv(c) or "").startswith("self.")}
+    # `for m in (self.a, self.b, ...): m.clear()` clears every element of the literal
+    for lp in [x for x in walk_body_shallow(ram.body) if isinstance(x, ast.For) and isinstance(x.target, ast.Name) and not x.orelse]:
+        it = expand(prog, ram, lp.iter, calls=True)
+        direct = [st for st in lp.body if isinstance(st, ast.Expr) and isinstance(st.value, ast.Call) and call_name(st.value) == "clear" and
+                  isinstance(st.value.func.value, ast.Name) and st.value.func.value.id == lp.target.id]
+        if isinstance(it, (ast.Tuple, ast.List)) and direct and not any(isinstance(x, (ast.Break, ast.Continue, ast.Return)) for x in ast.walk(lp)):
+            cleared |= {self_attr(e) for e in it.elts if self_attr(e)}
     r.check({"topics_to_brokers", "topic_partitions", "topic_errors", "_group_to_coordinator"} <= cleared, "%s#clears-routing-maps" % ram.qname,
             "reset_all_metadata leaves %s" % sorted({"topics_to_brokers", "topic_partitions", "topic_errors", "_group_to_coordinator"} - cleared),
             where(ram, ram.node), facts=sorted(cleared))
